@@ -100,6 +100,7 @@ type CaseD struct {
 	Cfg2 *profile.HavocConfig `json:"cfg2,omitempty"`
 	Src2 string              `json:"src2,omitempty"`
 	Occ  []Occurrence        `json:"occ"`
+	Pad  *Pad                `json:"pad,omitempty"` // file 1: comment / blank-line padding up to a file-size class
 }
 
 var attrSpellings = []string{"quoted", "quoted", "heredoc", "heredoc", "heredoc-flush", "quoted-interp", "quoted-if", "heredoc-interp", "heredoc-if", "heredoc-midline", "heredoc-2nd-line", "quoted-midstring"}
@@ -143,7 +144,7 @@ func spellingAllowed(f Fragment, sp string) bool {
 }
 
 // plant builds one profile, plants occurrences of the pool's fragments and renders it.
-func plant(t *rapid.T, pool []Fragment, file int) (profile.HavocConfig, string, []Occurrence) {
+func plant(t *rapid.T, pool []Fragment, file int) (profile.HavocConfig, string, []Occurrence, *Pad) {
 	o := genOpts{rich: rapid.SampledFrom([]int{0, 0, 1}).Draw(t, "rich"), maxRepeat: 2, maxColl: 2, presence: 90, zeroPct: 30}
 	cfg := genConfig(t, o)
 	p := newPrinter(t, rapid.SampledFrom([]int{0, 1, 1}).Draw(t, "wild"), false)
@@ -243,14 +244,19 @@ func plant(t *rapid.T, pool []Fragment, file int) (profile.HavocConfig, string, 
 		}
 	}
 	top = p.arrange(top)
-	src := render(top, p.style())
+	st := p.style()
+	src, tops := renderTop(top, st)
+	var pad *Pad
+	if file == 1 && padWanted(t) {
+		pad = choosePad(t, rapid.SampledFrom(padKindsComment).Draw(t, "padkind"), src, tops, st.NL)
+	}
 	var out []Occurrence
 	for _, x := range occ {
 		x.o.Line = x.n.LineFrom
 		out = append(out, x.o)
 	}
 	sort.SliceStable(out, func(i, j int) bool { return out[i].Line < out[j].Line })
-	return cfg, src, out
+	return cfg, src, out, pad
 }
 
 func genD(t *rapid.T) CaseD {
@@ -259,9 +265,9 @@ func genD(t *rapid.T) CaseD {
 	for i := 0; i < np; i++ {
 		c.Pool = append(c.Pool, genFragment(t))
 	}
-	c.Cfg, c.Src, c.Occ = plant(t, c.Pool, 1)
+	c.Cfg, c.Src, c.Occ, c.Pad = plant(t, c.Pool, 1)
 	if rapid.Bool().Draw(t, "two") {
-		cfg2, src2, occ2 := plant(t, c.Pool, 2)
+		cfg2, src2, occ2, _ := plant(t, c.Pool, 2)
 		c.Cfg2, c.Src2 = &cfg2, src2
 		c.Occ = append(c.Occ, occ2...)
 	}
@@ -283,7 +289,11 @@ func ruleOf(sp string) string {
 
 func checkD(c CaseD) *core.Violation {
 	one := func(file int, want profile.HavocConfig, src string) *core.Violation {
-		got, err := loadProfile([]byte(src))
+		text := []byte(src)
+		if file == 1 {
+			text, _, _ = expandPad(src, want, c.Pad)
+		}
+		got, err := loadProfile(text)
 		if err != nil {
 			sum, line, all := diagText(err)
 			sp := "elsewhere"
@@ -319,6 +329,9 @@ func checkD(c CaseD) *core.Violation {
 			"file %d, %s (%s): written %s, loaded %s (%d differing item(s))\npool: %q\n--- profile ---\n%s", file, d.Path, sp, d.Want, d.Got, len(diffs), c.Pool, src)
 	}
 	if v := one(1, c.Cfg, c.Src); v != nil {
+		if c.Pad != nil {
+			v.Sig += "|" + padLabels(c.Pad, 0)[1]
+		}
 		return v
 	}
 	if c.Cfg2 != nil {
@@ -399,6 +412,12 @@ func classifyD(c CaseD) core.Class {
 			order = k
 		}
 	}
+	cl.Labels = append(cl.Labels, padLabels(c.Pad, len(c.Src))...)
+	defer func() {
+		if c.Pad != nil {
+			cl.Fingerprint = "padded" + padFingerprint(c.Pad)
+		}
+	}()
 	cl.Fingerprint = fmt.Sprintf("%s|%s|across=%v|two=%v|bs+marker=%v", best, order, set["shared-source-fragment:across-files:quoted+heredoc"], set["two-files"], set["fragment:backslash-and-marker"])
 	return cl
 }
